@@ -21,6 +21,8 @@ RoundTrip(ev) ==
           /\ Chk(ev.pstrict.out = "ok" /\ VEq(ev.tree, ev.pstrict.v, TRUE), "strict mode does not accept / reproduce text produced without non-standard options")
   /\ Chk(ev.resort = 1, "re-serializing the parsed value with sorted keys does not reproduce the sorted serialization")
   /\ Chk(ev.copyeq = 1 /\ ev.copydeep = 1, "copies are not deep or do not compare equal to their source")
+  /\ Chk(\A i \in DOMAIN ev.assigned : VEq(ev.tree, ev.assigned[i], TRUE) /\ VEq(ev.assigned[i], ev.tree, TRUE),
+         "copy assignment onto a destination that already holds a value does not produce a value equal to the source")
 
 (* C05: one text through both modes and the three entry points.  res = <<reader def, ptr def, string def, reader strict, ptr strict, string strict>> *)
 ParseEv(ev) ==
